@@ -96,18 +96,6 @@ impl Prop for PPrintf {
                 o.remove("noread");
             }
         }
-        // -H with -depth and a starting point that is a link to a directory is a recorded finding of the
-        // traversal properties (C02/C03/C18); it is not what this property is about
-        if v["cfg"]["mode"] == "H" && v["cfg"]["depth"] == true {
-            let t = arr(&v["tree"]);
-            let linkroot = arr(&v["roots"]).iter().any(|r| {
-                let n = r["node"].as_u64().unwrap_or(0) as usize;
-                n > 0 && t[n - 1]["kind"] == "l"
-            });
-            if linkroot {
-                v["cfg"]["depth"] = json!(false);
-            }
-        }
         v.as_object_mut().unwrap().remove("form");
         if v["cfg"].get("modeflag").is_some() {
             v["cfg"].as_object_mut().unwrap().remove("modeflag");
@@ -134,6 +122,7 @@ impl Prop for PPrintf {
         // one case in three: names of two- and three-byte characters (a column is so many characters wide, not bytes)
         // (not where a link's text was written with the old names in it)
         let texts = arr(&v["tree"]).iter().any(|t| t.get("text").map(|x| !x.is_null()).unwrap_or(false));
+        // (a "reltext" link follows its target's name: nothing to keep)
         if idx % 3 == 1 && !texts {
             for i in 0..n {
                 if rng.chance(1, 2) {
